@@ -305,9 +305,10 @@ class HalfSplineDisk(QuarterSplineDisk):
 class SplineDisk(HalfSplineDisk):
     """Sketch for full oval, elliptical and circular shapes"""
 
+    # indexes of shape.operations, i.e. of the flattened grid (4 core faces first, then 8 shell faces)
     chops: ClassVar = [
-        [1],  # axis 0
-        [1, 2, 5, 7, 8, 11],  # axis 1
+        [4],  # axis 0
+        [4, 5, 7, 9],  # axis 1
     ]
 
     def __init__(
